@@ -2,6 +2,7 @@
 //! usage: vmain <PROPERTY> <quick|thorough>   |   vmain replay <file>
 
 mod c01;
+mod c02;
 mod c04;
 mod c12;
 mod c13;
@@ -12,6 +13,7 @@ use vcore::report::Run;
 fn run_property(id: &str, tier: &str) -> Option<Run> {
     Some(match id {
         "C01" => c01::run(tier),
+        "C02" => c02::run(tier),
         "C04" => c04::run(tier),
         "C12" => c12::run(tier),
         "C13" => c13::run(tier),
@@ -36,6 +38,7 @@ fn main() {
         let prop = v["property"].as_str().unwrap_or("").to_string();
         let res = match prop.as_str() {
             "C01" => c01::replay(&v["replay"]),
+            "C02" => c02::replay(&v["replay"]),
             "C04" => c04::replay(&v["replay"]),
             "C12" => c12::replay(&v["replay"]),
             "C13" => c13::replay(&v["replay"]),
